@@ -28,7 +28,7 @@ from vf.core import Violation, ok
 
 PID = "C14"
 LEVEL = "exploration"
-CASE_TIMEOUT = 30
+CASE_TIMEOUT = 10
 HANG_IS_VIOLATION = False
 WALL = {"quick": 150, "thorough": 1500}
 RULE = (
@@ -65,7 +65,7 @@ F14_OPEN = True
 
 
 def budget(tier):
-    return 1500 if tier == "quick" else 25000
+    return 3000 if tier == "quick" else 25000
 
 
 # ---------------------------------------------------------------------------------------------
@@ -189,7 +189,11 @@ class Sim:
 
     def fail(self, kind, msg):
         tail = "; ".join(self.log[-6:])
-        raise Violation(kind, f"{msg} | last events: {tail}")
+        raise Violation(kind, f"{msg} | last events: {tail}", detail=self.triggers())
+
+    def triggers(self):
+        """Open-finding triggers this history went through (only possible when the case allows them)."""
+        return {"f13": "entered-flow-ends-at-once" in self.labels, "f14": "nested-subflow-starts-with-wait" in self.labels}
 
     # -- reference side ----------------------------------------------------------------------
     def pump(self, act, answer, first=False):
@@ -484,6 +488,16 @@ def enumerate_cases(tier):
 # ---------------------------------------------------------------------------------------------
 
 
+def known(case, violation):
+    """Failures of histories that went through the trigger of a listed open finding (cases carry allow_* flags)."""
+    d = violation.detail or {}
+    if d.get("f14"):
+        return "C14-F14"
+    if d.get("f13"):
+        return "C14-F13"
+    return None
+
+
 def _run_history(program, fc, hist, rt, acts, loop, allow_instant_end, allow_nested_wait):
     sim = Sim(program, fc, hist["results"], rt, acts, loop, allow_instant_end, allow_nested_wait)
     for choice in hist["choices"]:
@@ -491,6 +505,14 @@ def _run_history(program, fc, hist, rt, acts, loop, allow_instant_end, allow_nes
             break
         sim.user_step(choice)
     return sim
+
+
+def _trig(*sims):
+    out = {"f13": False, "f14": False}
+    for sim in sims:
+        for k, v in sim.triggers().items():
+            out[k] = out[k] or v
+    return out
 
 
 def prop(case):
@@ -514,19 +536,19 @@ def prop(case):
         for n, c in main.evals:
             again = canon(m["flows"].compute_next_steps(main.history[:n], fc, None, []))
             if again != c:
-                raise Violation("impure", f"history prefix of {n} events gave {c} first and {again} after another history was evaluated on the same flow_configs")
+                raise Violation("impure", f"history prefix of {n} events gave {c} first and {again} after another history was evaluated on the same flow_configs", detail=_trig(main, other))
         fresh = build_flow_configs(src)
         for n, c in main.evals[-3:]:
             again = canon(m["flows"].compute_next_steps(main.history[:n], fresh, None, []))
             if again != c:
-                raise Violation("impure", f"history prefix of {n} events gave {c} on the used flow_configs and {again} on freshly built ones")
+                raise Violation("impure", f"history prefix of {n} events gave {c} on the used flow_configs and {again} on freshly built ones", detail=_trig(main, other))
         if rt is not None:
             for before, event, results, got in main.calls2:
                 acts.queue = list(results)
                 acts.calls = []
                 again = canon(loop.run_until_complete(rt.generate_events(main.history[:before] + [event])))
                 if again != got:
-                    raise Violation("impure-runtime", f"generate_events on a history of {before + 1} events gave {got} first and {again} later on the same runtime")
+                    raise Violation("impure-runtime", f"generate_events on a history of {before + 1} events gave {got} first and {again} later on the same runtime", detail=_trig(main, other))
     finally:
         if loop is not None:
             loop.close()
